@@ -75,6 +75,19 @@ func (c BranchCase) source() (string, []byte) {
 			}
 			fmt.Fprintf(&sb, "qt%d:\n\t%s\n", i, markerText(40+i))
 		}
+	case "stair":
+		// Filler forward JMPs as a staircase: the span of branch k holds the instruction of branch k+1 and is exactly
+		// 127 bytes while that one is short, so each assembly round widens exactly one more branch
+		n := c.Filler
+		sb.WriteString("\tJMP qs1\n\tRESB 98\n")
+		for k := 1; k <= n; k++ {
+			if k < n {
+				fmt.Fprintf(&sb, "\tJMP qs%d\n\tRESB 27\nqs%d:\n\tRESB 71\n", k+1, k)
+			} else {
+				fmt.Fprintf(&sb, "\tRESB 30\nqs%d:\n\tHLT\n", k)
+			}
+		}
+		return sb.String(), nil
 	case "num":
 		fmt.Fprintf(&sb, "\t%s\n\t%s 0x%x\n", mA, c.Mn, c.Target)
 	case "dollar":
@@ -162,6 +175,58 @@ func checkC04(c BranchCase) Verdict {
 	fail := func(kind, f string, a ...any) Verdict {
 		v.Fail = fmt.Sprintf(f, a...) + "\n--- source ---\n" + src + fmt.Sprintf("--- output (%d bytes) ---\n% x", len(out), head(out, 48))
 		v.Sig = fmt.Sprintf("C04|%s|kind=%s|mode=%d|mn=%s", kind, c.Kind, mode, c.Mn)
+		return v
+	}
+	if c.Kind == "stair" {
+		// walk the statements: every JMP must land on the true offset of its label
+		n := c.Filler
+		type jmp struct{ at, length, target int }
+		var jmps []jmp
+		labelAt := map[int]int{}
+		p := 0
+		dec := func() bool {
+			if p >= len(out) {
+				return false
+			}
+			inst, err := x86asm.Decode(out[p:], mode)
+			rel, ok := inst.Args[0].(x86asm.Rel)
+			if err != nil || inst.Op != x86asm.JMP || !ok {
+				return false
+			}
+			jmps = append(jmps, jmp{p, inst.Len, p + inst.Len + int(rel)})
+			p += inst.Len
+			return true
+		}
+		if !dec() {
+			return fail("nodecode", "staircase of %d: the first JMP does not decode", n)
+		}
+		p += 98
+		for k := 1; k <= n; k++ {
+			if k < n {
+				if !dec() {
+					return fail("nodecode", "staircase of %d: JMP %d does not decode at offset %d", n, k+1, p)
+				}
+				p += 27
+				labelAt[k] = p
+				p += 71
+			} else {
+				p += 30
+				labelAt[k] = p
+				p++
+			}
+		}
+		if p != len(out) {
+			return fail("filler", "staircase of %d: the statements add up to %d bytes, the output has %d", n, p, len(out))
+		}
+		for i, j := range jmps {
+			if j.target != labelAt[i+1] {
+				vv := fail("target", "staircase of %d branches: JMP number %d (at %#x, %d bytes) lands on %#x, its label is at %#x", n, i+1, j.at, j.length, j.target, labelAt[i+1])
+				vv.Sig += "|stair"
+				return vv
+			}
+		}
+		v.NonTrivial = true
+		v.Class += "|stair"
 		return v
 	}
 	if c.Kind == "chain" {
@@ -336,7 +401,7 @@ var c04Fillers = func() []int {
 
 var propC04 = &Prop[BranchCase]{
 	ID:   "C04",
-	Rule: "micro-programs 'pad; Jxx L; RESB d; L:' and the backward mirror for the 31 jump mnemonics and CALL, every d in 0..140 and around 32768, numeric targets, targets written relative to $ ($, $+k, $-k), far JMP seg:off with boundary values, ORG from the quantifier's set, BITS none/16/32, with and without a further label after the branch, with and without an earlier out-of-reach Jcc that forces a second assembly round, default-mode programs also with a trailing [BITS 32] group; oracle: decoded (next + rel) = origin + marker offset of the target, decoded condition = canonical condition of the mnemonic, filler intact; non-trivial = accepted; distinct by source text",
+	Rule: "micro-programs 'pad; Jxx L; RESB d; L:' and the backward mirror for the 31 jump mnemonics and CALL, every d in 0..140 and around 32768, numeric targets, staircases of 5..800 forward JMPs that need one assembly round per branch, targets written relative to $ ($, $+k, $-k), far JMP seg:off with boundary values, ORG from the quantifier's set, BITS none/16/32, with and without a further label after the branch, with and without an earlier out-of-reach Jcc that forces a second assembly round, default-mode programs also with a trailing [BITS 32] group; oracle: decoded (next + rel) = origin + marker offset of the target, decoded condition = canonical condition of the mnemonic, filler intact; non-trivial = accepted; distinct by source text",
 	Gen: func(t *rapid.T) BranchCase {
 		c := BranchCase{
 			Mode:     rapid.SampledFrom([]int{0, 16, 32}).Draw(t, "mode"),
@@ -436,9 +501,9 @@ var propC04 = &Prop[BranchCase]{
 		}
 		// cascades: with all branches short, only the innermost-last one is out of reach; widening it pushes the
 		// next one out of reach, and so on: one more assembly round per branch
-		maxk := 8
+		maxk := 12
 		if tier != "quick" {
-			maxk = 14
+			maxk = 20
 		}
 		for _, mode := range []int{16, 32} {
 			for _, mn := range []string{"JMP", "JE", "CALL"} {
@@ -463,6 +528,14 @@ var propC04 = &Prop[BranchCase]{
 					}
 				}
 			}
+		}
+		// staircases: one more assembly round per branch, on programs of growing size (the largest takes seconds)
+		stairs := []int{5, 40}
+		if tier != "quick" {
+			stairs = []int{5, 40, 200, 800}
+		}
+		for _, n := range stairs {
+			yield(BranchCase{Mode: 16, Org: -1, Kind: "stair", Mn: "JMP", Filler: n})
 		}
 		// 32-bit mode, distances beyond 64 KiB and 16 MiB (all four displacement bytes are significant)
 		for _, mn := range []string{"JMP", "CALL", "JE", "JNBE"} {
